@@ -19,6 +19,8 @@ import (
 // event, TokenEvent/TokenEventWithID, TokenReset, Reset.
 
 type svcapiDom struct {
+	lsMu  sync.Mutex
+	lsLog []string
 	run *svc.Runner
 }
 
@@ -48,6 +50,7 @@ func (d *svcapiDom) Gen(r *gen.R, tier string, emit func(string)) {
 			rid := r.Pick(svcapiNames) + r.Pick(svcapiQueries)
 			act := r.Pick([]string{"custom:foo", "custom:foo", "custom:a.b", "custom:change", "custom:x y", "custom:", "change", "reset", "reaccess", "create", "delete", "query", "resource"})
 			emit(wire.Line("with", rid, act))
+			emit(wire.Line("withls", rid, act))
 		case 5, 6:
 			subj := r.Pick([]string{"auth.svc.login", "auth.svc.model.a.relogin", "auth", "auth.>", "auth.*.relogin", "auth.svc.$method", "", "auth..x", "auth.svc.x y", "auth.svc.", "a?b", "auth.svc.re?login", "auth.a*b", "auth.a>", "auth.$", "auth.x.>y"})
 			k := r.Intn(3)
@@ -97,6 +100,17 @@ func (d *svcapiDom) Exec(a []string) string {
 			s.Handle("static", get)
 			s.Handle("all.>", get)
 			s.Handle("m.$a.$b", get)
+			// listeners on two of the patterns: events sent through With must reach them too
+			d.lsMu.Lock()
+			d.lsLog = nil
+			d.lsMu.Unlock()
+			for _, pat := range []string{"model.$id", "static"} {
+				s.AddListener(pat, func(ev *res.Event) {
+					d.lsMu.Lock()
+					d.lsLog = append(d.lsLog, ev.Name)
+					d.lsMu.Unlock()
+				})
+			}
 			run, err := svc.Start(s)
 			if err != nil {
 				return "start-failed"
@@ -119,8 +133,11 @@ func (d *svcapiDom) Exec(a []string) string {
 			f()
 		}
 		extra := ""
+		d.lsMu.Lock()
+		d.lsLog = nil
+		d.lsMu.Unlock()
 		switch a[0] {
-		case "with":
+		case "with", "withls":
 			var mu sync.Mutex
 			done := make(chan struct{})
 			err := s.With(a[1], func(r res.Resource) {
@@ -185,6 +202,19 @@ func (d *svcapiDom) Exec(a []string) string {
 			call(func() { s.Reset(rs, as) })
 		default:
 			return "bad-op"
+		}
+		if a[0] == "withls" {
+			// the listener calls the event made, in order
+			d.lsMu.Lock()
+			ls := strings.Join(d.lsLog, ",")
+			d.lsMu.Unlock()
+			if ls == "" {
+				ls = "-"
+			}
+			if panicked {
+				return "panic ls=" + ls
+			}
+			return "ls=" + ls
 		}
 		_, pubs := d.run.C.Snapshot()
 		var out []string
